@@ -146,6 +146,11 @@ func (m *Message) decode(pd packetDecoder) (err error) {
 	// for future metrics about the compression ratio in fetch requests
 	m.compressedSize = len(m.Value)
 
+	// the value is the last field: verify the checksum before the payload is handed to a decompressor
+	if err = pd.pop(); err != nil {
+		return err
+	}
+
 	if m.Value != nil && m.Codec != CompressionNone {
 		m.Value, err = decompress(m.Codec, m.Value)
 		if err != nil {
@@ -157,7 +162,7 @@ func (m *Message) decode(pd packetDecoder) (err error) {
 		}
 	}
 
-	return pd.pop()
+	return nil
 }
 
 // decodes a message set from a previously encoded bulk-message
